@@ -604,7 +604,7 @@ class Messenger(Connection):
     def _keepalive_reset(self):
         ''' Reset keepalive timer upon TX. '''
         self._keepalive_stop()
-        if self._keepalive_time > 0:
+        if self._keepalive_time > 0 and not self._in_term:
             self._keepalive_timer_id = glib.timeout_add(
                 int(self._keepalive_time * 1e3), self._keepalive_timeout)
 
